@@ -933,14 +933,10 @@ impl ProtocolState {
             return;
         }
 
-        // zero out everyone
-        let operations : Vec<u64> = self.operations.keys().copied().collect();
-        for id in operations {
-            let operation = self.operations.get_mut(&id).unwrap();
-            operation.slow_start_ack_value = 0;
-        }
-
-        // now mark all pending operations as part of slow start
+        // mark all pending operations as part of slow start; operations marked by an earlier
+        // disconnection that are still unresolved (no connection has been established since, or it
+        // was lost before they were resubmitted) stay marked: they are still interrupted operations
+        // and must be drained one at a time too.
         // anything that completes before we reconect won't matter because we compute the
         // slow start sum at the moment we transition into the connected state
         let pending_non_publish_operations : Vec<u64> = self.pending_non_publish_operations.values().copied().collect();
